@@ -108,6 +108,11 @@ def run(ctx, res):
                 state = "Filled"
                 c = p.cons.get((APE.vstr(e.c), "#%d" % OKV))
                 ok_fill = c == frozenset((EQ,))
+                c0 = p.cons.get((APE.vstr(e.c), "#0"))
+                if c is None and c0 is not None and OKV != 0:
+                    # the result is tested for truth (a boolean "got one", or success being the non-zero result code)
+                    ok_fill = EQ not in c0
+                    c = frozenset((EQ,)) if ok_fill else (frozenset((LT, GT)) if c0 == frozenset((EQ,)) else None)
                 # next heap operation before the next peek
                 rep = False
                 for x in evs[i + 1:]:
@@ -282,60 +287,8 @@ def run(ctx, res):
 
     # heap sites
     hu = "libmy/heap.c"
-    nsites = 0
-    for fn in ("siftup", "siftdown"):
-        f = prog.need(fn, hu)
-        res.saw(f)
-        defs = {}
-        for n in walk(f.body):
-            if n["k"] == "DeclStmt":
-                for d in n["decls"]:
-                    if d.get("init") is not None:
-                        defs[d["name"]] = d["init"]
-        idx_defs = {k: canon(v) for k, v in defs.items()}
-
-        def role(a):
-            s = strip(a)
-            if s["k"] != "DeclRefExpr" or s["name"] not in defs:
-                return canon(s)
-            d = strip(defs[s["name"]])
-            if is_call(d, "ptrvec_value"):
-                ix = strip(call_args(d)[1])
-                c = idx_defs.get(ix.get("name"), canon(ix)) if ix["k"] == "DeclRefExpr" else canon(ix)
-                if c in ("((pos-#1)>>#1)", "((pos-#1)/#2)"):
-                    return "parent"
-                if c in ("(childpos+#1)", "(#1+childpos)"):
-                    return "right"
-                if c in ("((#2*pos)+#1)", "((pos*#2)+#1)", "childpos"):
-                    return "child"
-                if c in ("pos", "(ptrvec_size(h->vec)-#1)"):
-                    return "new"
-                return "value@" + c
-            return canon(d)
-        for B in cond_blocks(f):
-            c = strip(B.cond)
-            if c["k"] != "BinaryOperator" or c.get("op") not in APE.OPSETS:
-                continue
-            l = strip(c["kids"][0])
-            if l["k"] != "CallExpr" or l.get("callee") or "cmp" not in canon(l["kids"][0]):
-                continue
-            if const_val(c["kids"][1]) != 0:
-                res.bad("C04.R4", site(f, "cmp-site"), "comparator result compared with a non-zero constant", f.loc(c))
-                continue
-            acc = APE.OPSETS[c["op"]]
-            roles = [role(a) for a in call_args(l)[:2]]
-            nsites += 1
-            sig = site(f, "cmp(%s,%s)" % tuple(roles))
-            legal = {("parent", "new"): "stop sifting up", ("right", "child"): "prefer right child", ("new", "child"): "stop sifting down"}
-            if tuple(roles) not in legal:
-                res.bad("C04.R4", sig, "heap comparison with unexpected operand roles %s" % (roles,), f.loc(c))
-                continue
-            res.check(LT in acc and GT not in acc, "C04.R4", sig, "%s when first < second, never when first > second" % legal[tuple(roles)],
-                      "heap order inverted: %s on %s" % (legal[tuple(roles)], sorted(acc)), f.loc(c))
-            # action on the true edge
-            t = CFG.reachable_from(f, B.succs[0]) - CFG.reachable_from(f, B.succs[1]) if B.succs[0] is not None and B.succs[1] is not None else set()
-    if nsites < 3:
-        raise BrokenAnalysis("heap comparison sites: %d found, 3 confirmed by hand" % nsites)
+    # (the comparison sites of the heap itself - which child is preferred, when sifting stops - are no longer recognised by
+    # shape: the heap's algorithms are decided in the order domain by rules/heaprule.py, see R10 below)
 
     # ---- R6 observation paths ---------------------------------------------------------
     res.floor("C04.R6", 2)
